@@ -72,6 +72,19 @@ CHECKS = {
             "enumeration, type) and minimality (z3 minimum, cross-checked by brute force for small totals); MinSetCover results for coverage and "
             "minimum weight (brute force over all sub-families), including default weights and zero weights.",
             "<= 5 distinct numbers <= 40; user-supplied lower bounds above the optimum are skipped; " + TRUST, "DESIGN.md 4/C15"),
+    "C09": ("exploration", "runtime monitors on Min*/k* cover models and get_width + z3 set-cover reference (paths / SCC-multigraph paths)",
+            "MinPathCover / MinPathCoverCycles must be solved, cover every non-ignored edge or node and use exactly the reference minimum number "
+            "of routes (z3 set cover over all source-to-sink paths, resp. over the paths of the SCC multigraph - an independent formulation of "
+            "the library's expanded condensation); stDAG/stDiGraph.get_width with the documented ignore convention must equal that minimum; "
+            "kPathCover / kPathCoverCycles for k in {w-1..w+2} must be solved exactly for k >= w. Ignore sets, additional starts/ends, "
+            "constraints with coverage and both cover types are varied.",
+            "graphs <= 12 edges; constraints only with edge covers; " + TRUST, "DESIGN.md 4/C09"),
+    "C16": ("exploration", "runtime monitor on MinErrorFlow.get_solution + exact z3 L1-correction reference on the harness's own formulation",
+            "Corrected graph must keep node/edge sets, be non-negative and of the requested type, be realisable as a conserving flow (z3 "
+            "feasibility on the harness's own node expansion for node-weighted input; one-sided exemption for additional starts/ends), have "
+            "recomputed scaled error equal to the z3 optimum (incl. sparsity lambda), reported error equal to the recomputed error, and stay "
+            "within (1+eps) with few_flow_values_epsilon.",
+            "graphs <= 11 edges; " + TRUST, "DESIGN.md 4/C16"),
 }
 
 NOT_YET = {}
